@@ -295,6 +295,8 @@ impl<'a> LexerCore<'a> {
             index,
             self.index
         );
+        #[cfg(feature = "verif-hooks")]
+        yash_env::verif_hooks::count_rewound_chars(self.index - index);
         self.index = index;
     }
 
